@@ -751,7 +751,8 @@ impl Session {
                     .resource::<Assets<SkinnedMeshInverseBindposes>>()
                     .get(&sm.inverse_bindposes)
                     .map(|p| p.iter().flat_map(|m| m.to_cols_array()).map(|f| format!("{:08x}", f.to_bits())).collect::<Vec<_>>().join(""));
-                skinned = json!({"joints": joints, "poses": poses});
+                let joints_local: Vec<u64> = sm.joints.iter().map(|j| j.to_bits()).collect();
+                skinned = json!({"joints": joints, "poses": poses, "joints_local": joints_local});
             }
             // companions of the render components (C17)
             let mut companions = vec![];
